@@ -423,6 +423,9 @@ func (g *Gen) heapWF(h, elemSort, base string, global bool) {
 			// map values that are slices: their backing arrays are not newer than the base either
 			ks := arrayKeySort(elemSort)
 			f = fmt.Sprintf("(forall ((a Ref) (k %s)) (! (<= (rootOid (sarr (select (select %s a) k))) %s) :pattern ((select (select %s a) k))))", ks, h, base, h)
+		} else if strings.HasPrefix(elemSort, "(Array ") && arrayKeySort(elemSort) == SRef && arrayElemSort(elemSort) == SBool {
+			// a ghost set of references: its members are not newer than the base (sets grow by adding existing objects)
+			f = fmt.Sprintf("(forall ((a Ref) (k Ref)) (! (=> (select (select %s a) k) (<= (rootOid k) %s)) :pattern ((select (select %s a) k))))", h, base, h)
 		} else {
 			return
 		}
